@@ -25,6 +25,14 @@ search_buffer_length (plus a plain field of the outer class after it), an option
 selected `Ref(key.chooses({...}))` (literal fields and a packet), and `.at()` / `.shift()`.
 Oracle: `wmodel()` - a sequential reference parse that calls `take()` (same rules as `model()`)
 at every place a Data value is read, with the window of the class that declares the field.
+
+Third part (section "context-sensitive regex delimiters"): regex delimiters whose match depends on the bytes
+around the candidate - look-behinds, `\\b` / `\\B`, `^` / `\\A` / `(?m)^`, a look-ahead at the window edge - with the
+field first / after a sentinel with an adversarial last byte / twice in a row / inside a `Ref(Sub)`, parsed with
+`unpack(raw, offset=k)`, k >= 0, after an adversarial byte at k-1.  Oracle: `ctx_model()`, run under both readings
+of "first regex match at or after the cursor" (searched on the bytes from the cursor on / searched in place in the
+parsed text raw[k:]); judged where they agree - in particular for the first field, where no byte before the start
+offset may matter (docs/reference/02) - counted where they do not.
 """
 import hashlib
 import re
@@ -56,6 +64,17 @@ REQUIRED = (
     "wrapped_moved_forward", "wrapped_err_short_read_raised", "wrapped_err_negative_size_raised",
     "wrapped_err_missing_delimiter_raised", "wrapped_pack_compared", "wrapped_pack_literal_delimiter_appended",
     "wrapped_fresh_pack_compared", "wrapped_repack_roundtrip_values_preserved",
+    # context-sensitive regex delimiters
+    "ctx_classes_defined", "ctx_unpack_ok_compared", "ctx_end_offset_compared", "ctx_errors_agreed",
+    "ctx_err_missing_delimiter_raised", "ctx_err_delimiter_outside_window_raised",
+    "ctx_start_offset_nonzero_compared", "ctx_adversarial_byte_before_start_offset_compared",
+    "ctx_start_offset_decisive", "ctx_start_offset_decisive_lookbehind", "ctx_start_offset_decisive_boundary",
+    "ctx_start_offset_decisive_anchor", "ctx_start_offset_decisive_nested",
+    "ctx_start_offset_decisive_with_window", "ctx_start_offset_decisive_without_window",
+    "ctx_start_offset_decisive_include_on", "ctx_start_offset_decisive_include_off",
+    "ctx_after_earlier_field_compared", "ctx_adversarial_sentinel_byte_compared", "ctx_in_sub_packet_compared",
+    "ctx_delimiter_at_cursor", "ctx_in_window_accepts", "ctx_lookahead_blocked_by_window_edge",
+    "ctx_pack_compared", "ctx_fresh_pack_compared", "ctx_repack_roundtrip_values_preserved",
 )
 RULE = {
     "quick": "every class of the product {4 constants, field, 3 field expressions, 2 callables (+1 unjudged non-integer), "
@@ -73,8 +92,18 @@ RULE = {
              "{(unset,3),(3,unset),(2,5),(5,2),(0,3)} x 3 option sets (about 1700 classes + 640 sub-packet classes), 12 "
              "seeded inputs each (element lengths around the window edge of either class, marker bytes in gaps and "
              "sentinels, condition true/false, counts 0..3, truncations) plus 2 freshly built packets packed and parsed again; "
-             "about 23k inputs.  Non-trivial = both header bytes present.",
-    "thorough": "as quick, 16 shards with independent PRNG streams (and shifted variant rotation), about 1M + 0.7M inputs.",
+             "about 23k inputs.  Non-trivial = both header bytes present.  "
+             "Context-sensitive part: 10 regex delimiters {3 look-behinds, \\b, \\B, ^;|, \\A;, (?m)^#, ^\\. with re.M, "
+             "look-ahead ;(?=;)} x include_delimiter x windows {unset,3,5} x 6 shapes {field first, after Int(1), after "
+             "Data(2), two consecutive fields, in a Ref(Sub) after an outer Int(1), first field of a Ref(Sub) that is the "
+             "first field} x 3 option sets (1080 classes + 360 sub-packet classes), 20 inputs each parsed with "
+             "unpack(raw, offset=k), k in 0..3, the byte before the start offset and the last byte of every sentinel drawn "
+             "from {backslash, word character, newline, the delimiter byte, a look-behind byte}, a delimiter byte at the "
+             "cursor in 60% of the inputs, plus 2 freshly built packets (delimiter kept) packed and parsed again; about "
+             "23k inputs, judged where the two readings of the statement agree (see ASSUMPTIONS).  Non-trivial = at least "
+             "one byte at or after the start offset.",
+    "thorough": "as quick, 16 shards with independent PRNG streams (and shifted variant rotation), about 1M + 0.7M + 0.7M "
+                "inputs (context-sensitive part: 39 inputs per class, start offsets up to 9).",
 }
 ASSUMPTIONS = [
     "Python `re.search` on the window slice raw[o:o+W] is the specification of 'leftmost regex match within the window' "
@@ -95,6 +124,18 @@ ASSUMPTIONS = [
     "the bytes filling a gap made by .at()/.shift(), pack() of a field moved back over the header, and a repeated(until=) "
     "that would never terminate (zero-length elements, not executed) are outside the property: counted, not judged",
     ".repeated(until=) reads one or more elements (docs/reference/08_sequences.md); .when() false gives None and consumes nothing",
+    "context-sensitive part: `Packet.unpack(raw, offset=k)` is `Packet.unpack(raw[k:])` without the copy, the first k bytes "
+    "are ignored (docs/reference/02_from_and_to_bytes.md): no byte before the start offset may influence a regex delimiter",
+    "context-sensitive part: whether a look-behind / \\b / \\B / ^ / \\A evaluated at the cursor may see the bytes of the "
+    "*earlier fields* of the same parse is fixed neither by the statement ('first ... regex match at or after the cursor': both "
+    "candidates start at or after the cursor) nor by docs/reference/04 (the library source carries the open question "
+    "'(raw, offset) or (raw[offset:], 0) ?'): a case is judged only when `rx.search(raw[o:o+W])` and "
+    "`rx.search(raw[k:], o-k, o-k+W)` demand the same values, cursor and error/no error; the others are counted "
+    "(ctx_contested_not_judged; ctx_contested_library_follows_* tallies what the library did)",
+    "context-sensitive part: the far edge of the window is end of text for a look-ahead, as for `$` (docs/reference/04: "
+    "the library 'will not attempt to scan further')",
+    "context-sensitive part: pack() is judged only with include_delimiter=True (the value carries its delimiter); a regex "
+    "delimiter that is not kept has no defined re-emission",
 ]
 
 OPTSETS = {
@@ -1398,6 +1439,497 @@ def run_wrapped(run, PacketError, n_shared, n_private, n_fresh):
         common.drop_scratch(scratch)
 
 
+# =================================================================================================
+# ---- context-sensitive regex delimiters ---------------------------------------------------------
+# Regex delimiters whose match depends on bytes *around* the candidate position: look-behinds, word
+# boundaries, anchors (context before the cursor) and a look-ahead (context beyond the window edge).
+#
+# What is the "first regex match at or after the cursor" when a zero-width assertion at the cursor looks at
+# the byte before it?  Two readings:
+#   copy      the regex is searched on the bytes from the cursor on, re.search(raw[o:o+W]): the cursor is the
+#             start of the searched text (what the pinned library does);
+#   in place  the regex is searched inside the parsed text from position o, the bytes of the *earlier fields*
+#             remain visible to look-behinds / \b / ^ (the library source itself carries the note "should be
+#             (raw, offset) or (raw[offset:], 0) ?"; neither the statement nor docs/reference decide it).
+# What the docs do fix (02_from_and_to_bytes.md): `Packet.unpack(raw, offset=k)` is `Packet.unpack(raw[k:])`
+# without the copy - the first k bytes are *ignored*.  So the parsed text starts at k under every reading, and
+# the in-place reading is `rx.search(raw[k:], o-k, o-k+W)`.  A case is judged when both readings give the same
+# result (always so for the first field of the packet, whatever byte precedes the start offset); the others are
+# counted (ctx_contested_not_judged, with a tally of the reading the library followed).  The far edge is fixed
+# by the docs of search_buffer_length ("will not attempt to scan further") and by `endpos` of both readings:
+# a look-ahead cannot see beyond the window.
+CTX_WINDOWS = [None, 3, 5]
+CTX_SHAPES = ["first", "after_int", "after_tag", "two", "sub", "sub_first"]
+CTX_SUBOPT = {"g": "d", "d": "nv", "nv": "g"}
+
+
+class CtxMode:
+    def __init__(self, mid, family, pattern, alphabet, dchar, closers, adv, neutral, flags=0, flags_src=""):
+        self.id, self.kind, self.family = mid, "rx", family
+        self.pattern, self.flags = pattern, flags
+        self.rx = re.compile(pattern, flags)                 # the oracle's own compiled object
+        self.arg = "until_marker=re.compile(%r%s)" % (pattern, flags_src)
+        self.alphabet = alphabet
+        self.dchar = dchar                                   # the delimiter's own byte
+        self.closers = closers                               # tails that contain a match whatever precedes them
+        self.adv = adv                                       # adversarial bytes to put right before the cursor
+        self.neutral = neutral
+
+
+CTX_MODES = [
+    CtxMode("cx_lb_unescaped_quote", "lookbehind", rb'(?<!\\)"', b'\\"x', b'"', [b'x"'], b'\\\\\\"x', b"x"),
+    CtxMode("cx_lb_after_x", "lookbehind", rb"(?<=x);", b"x;y", b";", [b"x;"], b"xxx;y", b"y"),
+    CtxMode("cx_lb_not_after_lower", "lookbehind", rb"(?<![a-z]);", b"a;.", b";", [b".;"], b"aaz;.", b"."),
+    CtxMode("cx_wordb_dash", "boundary", rb"\b-", b"a-.", b"-", [b"a-"], b"aa_9-.", b"."),
+    CtxMode("cx_nonwordb_semi", "boundary", rb"\B;", b"a;.", b";", [b".;"], b"aa_0;.", b"."),
+    CtxMode("cx_caret_semi_or_comma", "anchor", rb"^;|,", b";,x\n", b";", [b","], b";x\n\n", b"x"),
+    CtxMode("cx_bos_semi", "anchor", rb"\A;", b";x", b";", [b""], b";x\n", b"x"),
+    CtxMode("cx_mline_caret_hash", "anchor", rb"(?m)^#", b"#\nx", b"#", [b"\n#"], b"\n\n#x", b"x"),
+    CtxMode("cx_mline_flag_caret_dot", "anchor", rb"^\.", b".\nx", b".", [b"\n."], b"\n\n.x", b"x",
+            flags=re.M, flags_src=", re.M"),
+    CtxMode("cx_la_semi_before_semi", "lookahead", rb";(?=;)", b";x", b";", [b";;"], b";;x", b"x"),
+]
+CTX_MODE_BY_ID = {m.id: m for m in CTX_MODES}
+
+
+class CCls:
+    __slots__ = ("name", "shape", "mode", "incl", "W", "opt", "subopt", "src", "cls", "subcls", "spec")
+
+    def __init__(self, name, shape, mode, incl, W, opt):
+        self.name, self.shape, self.mode, self.incl, self.W, self.opt = name, shape, mode, incl, W, opt
+        self.subopt = CTX_SUBOPT[opt] if shape == "sub" else opt
+        self.cls = self.subcls = None
+        self.spec = {"ctx": True, "shape": shape, "mode": mode.id, "incl": incl, "W": W, "opt": opt}
+        D = "Data(%s, include_delimiter=%r)" % (mode.arg, incl)
+
+        def opts(o):
+            d = dict(OPTSETS[o])
+            if W is not None:
+                d["search_buffer_length"] = W
+            return "    __bisturi__ = %r" % (d,)
+        sub = []
+        if shape in ("sub", "sub_first"):
+            sub = ["class %s_S(Packet):" % name, opts(self.subopt), "    d = %s" % D] + \
+                  (["    t = Int(1)"] if shape == "sub" else []) + [""]
+        body = {"first": ["    d = %s" % D],
+                "after_int": ["    s1 = Int(1)", "    d = %s" % D],
+                "after_tag": ["    tag = Data(2)", "    d = %s" % D],
+                "two": ["    s1 = Int(1)", "    d = %s" % D, "    e = %s" % D],
+                "sub": ["    s1 = Int(1)", "    sub = Ref(%s_S)" % name],
+                "sub_first": ["    sub = Ref(%s_S)" % name]}[shape]
+        self.src = "\n".join(sub + ["class %s(Packet):" % name, opts(opt)] + body + ["    s2 = Int(2)"]) + "\n"
+
+
+CTX_FIELDS = {"first": ["d", "s2"], "after_int": ["s1", "d", "s2"], "after_tag": ["tag", "d", "s2"],
+              "two": ["s1", "d", "e", "s2"], "sub": ["s1", "sub", "s2"], "sub_first": ["sub", "s2"]}
+
+
+def ctx_specs():
+    groups, n = [], 0
+    for mode in CTX_MODES:
+        for W in CTX_WINDOWS:
+            for shape in CTX_SHAPES:
+                members = []
+                for incl in (False, True):
+                    for opt in OPTSETS:
+                        members.append(CCls("K%d" % n, shape, mode, incl, W, opt))
+                        n += 1
+                groups.append(((mode.id, W, shape), members))
+    return groups
+
+
+def ctx_model(cc, raw, k, reading):
+    """Sequential reference parse of raw from the start offset k.
+    reading: 'copy' = search raw[o:o+W]; 'start' = search inside raw[k:] from the cursor (bytes before k ignored,
+    as documented); 'whole' = search inside the whole raw from the cursor (counter-factual, never an expectation).
+    ('ok', want, end, pack bytes | None, flags) | ('err', reason) | ('unjudged', reason)"""
+    mode, incl, W, shape = cc.mode, cc.incl, cc.W, cc.shape
+    rx, L = mode.rx, len(raw)
+    base = {"copy": None, "start": k, "whole": 0}[reading]
+    view = raw if base in (None, 0) else raw[base:]
+    st = {"cur": k, "packable": True}
+    pieces, flags, want = [], [], {}
+
+    def search(o, end):
+        if base is None:
+            m = rx.search(raw[o:end])
+            return None if m is None else (o + m.start(), o + m.end())
+        m = rx.search(view, o - base, end - base)
+        return None if m is None else (base + m.start(), base + m.end())
+
+    def fixed(n, why, as_int=True):
+        o = st["cur"]
+        if o + n > L:
+            raise _Unj(why)
+        st["cur"] = o + n
+        pieces.append(raw[o:o + n])
+        return int.from_bytes(raw[o:o + n], "big") if as_int else raw[o:o + n]
+
+    def data(inner=False):
+        o = st["cur"]
+        end = min(o + W, L) if W else L
+        hit = search(o, end)
+        unbounded = hit if end == L else search(o, L)
+        if hit is None:
+            if unbounded is not None and unbounded[1] <= end:
+                # the delimiter bytes lie inside the window, only what the look-ahead wants to see lies beyond it
+                flags.append("lookahead_context_beyond_window")
+            raise _Err("missing_delimiter" if unbounded is None else "delimiter_outside_window")
+        ds, de = hit
+        if unbounded != hit:
+            flags.append("window_edge_changes_match")
+        if W:
+            flags.append("in_window_accept")
+        if ds == o:
+            flags.append("delimiter_at_cursor")
+        if de == ds:
+            flags.append("zero_length_delimiter")
+        if o > k:
+            flags.append("after_earlier_field")
+        if inner:
+            flags.append("in_sub_packet")
+        st["cur"] = de
+        if incl:
+            pieces.append(raw[o:de])
+            return raw[o:de]
+        st["packable"] = False           # a regex delimiter that is not kept has no defined re-emission
+        pieces.append(raw[o:ds])
+        return raw[o:ds]
+
+    try:
+        if shape == "after_int":
+            want["s1"] = fixed(1, "s1_short")
+        elif shape == "after_tag":
+            want["tag"] = fixed(2, "tag_short", as_int=False)
+        elif shape in ("two", "sub"):
+            want["s1"] = fixed(1, "s1_short")
+        if shape in ("sub", "sub_first"):
+            sub = {"d": data(inner=True)}
+            if shape == "sub":
+                sub["t"] = fixed(1, "sub_t_short")
+            want["sub"] = sub
+        else:
+            want["d"] = data()
+            if shape == "two":
+                want["e"] = data()
+        want["s2"] = fixed(2, "s2_short")
+    except _Err as e:
+        return ("err", str(e), flags)
+    except _Unj as e:
+        return ("unjudged", str(e))
+    return ("ok", want, st["cur"], b"".join(pieces) if st["packable"] else None, flags)
+
+
+def _ctx_verdict(m):
+    """what a reading demands, reduced to what is compared (any missing-delimiter reason is just 'an error')"""
+    return ("err",) if m[0] == "err" else m[:3]
+
+
+def _cobs(x):
+    if isinstance(x, (bytes, int)) or x is None:
+        return x
+    if hasattr(x, "get_fields"):
+        return {name: _cobs(getattr(x, name, "<unset>")) for name, _f, _p, _u in x.get_fields()}
+    return "<%s %r>" % (type(x).__name__, x)
+
+
+def gen_ctx(rng, cc, tier="quick"):
+    """(raw, start offset): the byte before the start offset and the last byte of every sentinel are adversarial."""
+    mode, shape, W = cc.mode, cc.shape, cc.W
+    alpha = mode.alphabet
+
+    def adv(p=0.65):
+        r = rng.random()
+        if r < p:
+            return bytes([rng.choice(mode.adv)])
+        return bytes([rng.choice(alpha)]) if r < 0.85 else bytes([rng.randrange(256)])
+
+    def elem():
+        n = rng.choice([0, 0, 1, 2, 3, (W or 4) - 2, (W or 4) - 1, (W or 4), (W or 4) + 1, rng.randint(0, 8)])
+        body = mode.neutral * n if rng.random() < 0.3 else _rb(rng, n, alpha)
+        if rng.random() < 0.6:
+            body = mode.dchar + body                       # a delimiter byte right at the cursor
+        if rng.random() < 0.75:
+            body += rng.choice(mode.closers)
+        return body
+
+    k = rng.choice([0, 0, 1, 1, 2, 3] if tier == "quick" else [0, 0, 1, 1, 2, 3, 5, 9])
+    out = (_rb(rng, k - 1, alpha) + adv(0.8)) if k else b""
+    if shape in ("after_int", "two", "sub"):
+        out += adv()
+    elif shape == "after_tag":
+        out += _rb(rng, 1, alpha) + adv()
+    out += elem()
+    if shape == "two":
+        out += elem()
+    elif shape == "sub":
+        out += _rb(rng, 1, alpha)
+    out += _rb(rng, 2, alpha) if rng.random() < 0.4 else _rb(rng, 2)
+    t = rng.random()
+    if t < 0.25:
+        out += _rb(rng, rng.randint(1, 3), alpha)
+    if rng.random() < 0.05 and len(out) > k + 1:
+        out = out[:rng.randint(k + 1, len(out))]
+    return out, k
+
+
+def _ckey(cc, raw, k):
+    s = cc.spec
+    return hashlib.blake2b(("x|%s|%s|%s|%s|%s|%d|" % (s["shape"], s["mode"], s["incl"], s["W"], s["opt"], k)).encode()
+                           + raw, digest_size=8).hexdigest()
+
+
+def _cwitness(cc, raw, k, exp, got, origin, op="unpack"):
+    return {"op": op, "declaration": WHEADER + cc.src, "class": cc.name, "spec": cc.spec, "raw": raw,
+            "start_offset": k, "call": "%s.unpack(raw, offset=%d)" % (cc.name, k), "origin": origin,
+            "expected": exp, "got": got}
+
+
+def check_ctx(run, cc, raw, k, origin, PacketError):
+    """Parse raw from offset k with the real class; judge where both readings of 'first regex match at or after
+    the cursor' agree. Returns the model result when an 'ok' expectation was met, else None."""
+    mode, shape = cc.mode, cc.shape
+    A = ctx_model(cc, raw, k, "copy")
+    B = ctx_model(cc, raw, k, "start")
+    run.case(key=_ckey(cc, raw, k), nontrivial=len(raw) > k)
+    run.count("ctx_inputs")
+    pkt, exc = None, None
+    try:
+        pkt = cc.cls.unpack(raw, k)
+    except Exception as e:           # noqa
+        exc = e
+    if A[0] == "unjudged" or B[0] == "unjudged":
+        run.count("ctx_unjudged_" + (A[1] if A[0] == "unjudged" else B[1]))
+        return None
+    fields = CTX_FIELDS[shape]
+    got = None if exc is not None else {f: _cobs(getattr(pkt, f, "<unset>")) for f in fields}
+    if _ctx_verdict(A) != _ctx_verdict(B):
+        # bytes of an *earlier field* decide the match: the statement does not say whether they are visible
+        run.count("ctx_contested_not_judged")
+        run.count("ctx_contested_not_judged_" + mode.family)
+        run.cover("ctx_contested_in", "%s/%s" % (mode.id, shape))
+        follows = []
+        for tag, m in (("cursor_copy_reading", A), ("in_place_reading", B)):
+            if (m[0] == "err" and exc is not None) or (m[0] == "ok" and exc is None and _same(got, m[1])):
+                follows.append(tag)
+        run.count("ctx_contested_library_follows_" + ("_and_".join(follows) if follows else "neither"))
+        return None
+
+    F = ctx_model(cc, raw, k, "whole")
+    decisive = F[0] == "unjudged" or _ctx_verdict(F) != _ctx_verdict(A)
+
+    def tally_decisive():
+        run.count("ctx_start_offset_decisive")
+        run.count("ctx_start_offset_decisive_" + mode.family)
+        run.count("ctx_start_offset_decisive_" + ("with_window" if cc.W else "without_window"))
+        run.count("ctx_start_offset_decisive_include_" + ("on" if cc.incl else "off"))
+        if shape in ("sub", "sub_first"):
+            run.count("ctx_start_offset_decisive_nested")
+        run.cover("ctx_start_offset_decisive_in", "%s/%s" % (mode.id, shape))
+
+    why = "%s [judged: both readings of 'first regex match at or after the cursor' demand this"
+    if decisive:
+        why += "; a search that lets the bytes before the start offset of unpack() - ignored per docs/reference/02 - " \
+               "take part in the match gives something else"
+    why += "]"
+
+    def _cw(exp, got_):
+        w = _cwitness(cc, raw, k, exp, got_, origin)
+        if decisive:
+            w["in_place_search_over_the_whole_raw_would_give"] = \
+                {"error": F[1]} if F[0] == "err" else {"short_input": F[1]} if F[0] == "unjudged" else dict(F[1], end=F[2])
+            w["bytes_before_start_offset"] = raw[:k]
+        return w
+    if A[0] == "err":
+        if exc is None:
+            run.violation(why % ("%s accepted: unpack() returned a packet where the model demands an error" % A[1]),
+                          _cw({"error": A[1]}, got))
+            return None
+        if not isinstance(exc, PacketError):
+            run.violation("%s raised %s instead of PacketError" % (A[1], type(exc).__name__),
+                          _cw({"error": A[1]}, {"exception": repr(exc)[:300]}))
+            return None
+        run.count("ctx_errors_agreed")
+        run.count("ctx_err_%s_raised" % A[1])
+        if "lookahead_context_beyond_window" in A[2]:
+            run.count("ctx_lookahead_blocked_by_window_edge")
+        if decisive:
+            tally_decisive()
+        return None
+
+    _, want, end, wpack, flags = A
+    if exc is not None:
+        run.violation(why % ("unpack() raised %s on an input the model parses" % type(exc).__name__),
+                      _cw(dict(want, end=end), {"exception": str(exc)[:400]}))
+        return None
+    try:
+        p2 = cc.cls(_initialize_fields=False)
+        got_end = p2.unpack_impl(raw, k, root=p2)
+        got2 = {f: _cobs(getattr(p2, f, "<unset>")) for f in fields}
+    except Exception as e:           # noqa
+        got_end, got2 = "raised %s" % type(e).__name__, None
+    bad = None
+    if not _same(got, want):
+        diff = [f for f in fields if not _same(got.get(f), want.get(f))]
+        if diff[0] in ("d", "e", "sub"):
+            bad = "value of the regex-delimited field %s differs from the first match at or after the cursor, " \
+                  "delimiter %s" % (diff[0], "included" if cc.incl else "excluded")
+        elif diff[0] == "s2":
+            bad = "sentinel s2 differs: the cursor was not left just past the delimiter"
+        else:
+            bad = "field %s differs" % diff[0]
+    elif got_end != end:
+        bad = "end offset differs: the cursor was not left just past the delimiter"
+    elif not _same(got2, want):
+        bad = "second parse (unpack_impl) produced different values"
+    if bad:
+        run.violation(why % bad, _cw(dict(want, end=end), dict(got, end=got_end)))
+        return None
+    run.count("ctx_unpack_ok_compared")
+    run.count("ctx_end_offset_compared")
+    run.count("ctx_unpack_ok_" + shape)
+    run.cover("ctx_modes", mode.id)
+    run.cover("ctx_windows", "unset" if cc.W is None else cc.W)
+    run.cover("ctx_option_sets", "%s+%s" % (cc.opt, cc.subopt) if cc.subcls is not None else cc.opt)
+    if k:
+        run.count("ctx_start_offset_nonzero_compared")
+    if decisive:
+        tally_decisive()
+    fl = set(flags)
+    for f in fl:
+        run.count({"window_edge_changes_match": "ctx_window_edge_changes_match",
+                   "in_window_accept": "ctx_in_window_accepts",
+                   "delimiter_at_cursor": "ctx_delimiter_at_cursor",
+                   "zero_length_delimiter": "ctx_zero_length_delimiter",
+                   "after_earlier_field": "ctx_after_earlier_field_compared",
+                   "in_sub_packet": "ctx_in_sub_packet_compared"}[f])
+    sidx = {"after_int": k, "two": k, "sub": k, "after_tag": k + 1}.get(shape)
+    if sidx is not None and raw[sidx] in mode.adv:
+        run.count("ctx_adversarial_sentinel_byte_compared")   # backslash / word character / newline / the delimiter
+    if k and raw[k - 1] in mode.adv:
+        run.count("ctx_adversarial_byte_before_start_offset_compared")
+
+    if wpack is None:
+        run.count("ctx_pack_regex_excluded_delimiter_not_judged")
+        return A
+    check_ctx_pack(run, cc, pkt, wpack, want, "pack() of the packet parsed from raw", raw, k)
+    return A
+
+
+def check_ctx_pack(run, cc, pkt, wpack, values, how, raw=None, k=0):
+    try:
+        out = pkt.pack()
+    except Exception as e:           # noqa
+        w = _cwitness(cc, raw, k, wpack, {"exception": str(e)[:400]}, how, "pack")
+        w["values"] = values
+        run.violation("pack() of a packet with a kept regex delimiter raised %s" % type(e).__name__, w)
+        return None
+    if out != wpack:
+        w = _cwitness(cc, raw, k, wpack, out, how, "pack")
+        w["values"] = values
+        run.violation("pack() is not the fields in order, each value with its kept regex delimiter", w)
+        return None
+    run.count("ctx_pack_compared")
+    return out
+
+
+def ctx_fresh(run, rng, cc, PacketError):
+    """A freshly built packet whose values keep their delimiter: pack() = the fields in order; parsed again."""
+    mode, shape = cc.mode, cc.shape
+    if not cc.incl:
+        return
+
+    def val():
+        n = rng.randint(0, 3)
+        return (mode.neutral * n if rng.random() < 0.6 else _rb(rng, n, mode.alphabet)) + \
+            rng.choice(mode.closers + [mode.dchar])
+    s2 = rng.randrange(65536)
+    s1 = rng.choice(mode.adv) if rng.random() < 0.6 else rng.randrange(256)
+    try:
+        if shape == "first":
+            kw = {"d": val()}
+            want = kw["d"]
+        elif shape == "after_int":
+            kw = {"s1": s1, "d": val()}
+            want = bytes([s1]) + kw["d"]
+        elif shape == "after_tag":
+            kw = {"tag": _rb(rng, 1, mode.alphabet) + bytes([s1]), "d": val()}
+            want = kw["tag"] + kw["d"]
+        elif shape == "two":
+            kw = {"s1": s1, "d": val(), "e": val()}
+            want = bytes([s1]) + kw["d"] + kw["e"]
+        elif shape == "sub":
+            d, t = val(), rng.randrange(256)
+            kw = {"s1": s1, "sub": cc.subcls(d=d, t=t)}
+            want = bytes([s1]) + d + bytes([t])
+        else:
+            d = val()
+            kw = {"sub": cc.subcls(d=d)}
+            want = d
+        kw["s2"] = s2
+        want += s2.to_bytes(2, "big")
+        pkt = cc.cls(**kw)
+    except Exception:                # noqa - construction is not C06's business
+        run.count("ctx_fresh_construction_failed")
+        return
+    values = {f: _cobs(x) for f, x in kw.items()}
+    out = check_ctx_pack(run, cc, pkt, want, values, "pack() of a freshly built packet")
+    if out is None:
+        return
+    run.count("ctx_fresh_pack_compared")
+    exp = check_ctx(run, cc, out, 0, "repack", PacketError)
+    if exp is not None and all(_same(exp[1].get(f), values[f]) for f in values):
+        run.count("ctx_repack_roundtrip_values_preserved")
+    else:
+        run.count("ctx_repack_not_identical_per_model")      # value holds an earlier match, exceeds the window, contested
+
+
+def define_ctx(groups, scratch):
+    from .. import render
+    modules = []
+    for _, members in groups:
+        module, _path = render.load_source(WHEADER + "\n".join(c.src for c in members), scratch)
+        modules.append(module)
+        for c in members:
+            c.cls = getattr(module, c.name)
+            c.subcls = getattr(module, c.name + "_S", None)
+    return modules
+
+
+def run_ctx(run, PacketError, n_shared, n_private, n_fresh):
+    from .. import common
+    shard, _ = run.shard
+    rng = rng_for(run.seed, "c06-ctx", shard)
+    scratch = common.scratch_dir("bvf_c06x_")
+    groups = ctx_specs()
+    modules = []
+    try:
+        modules = define_ctx(groups, scratch)
+        run.count("ctx_classes_defined", sum(len(m) for _, m in groups))
+        sampled = 0
+        for gkey, members in groups:
+            shared = [gen_ctx(rng, members[0], run.tier) for _ in range(n_shared)]
+            for cc in members:
+                for raw, k in shared:
+                    check_ctx(run, cc, raw, k, "adversarial", PacketError)
+                for _ in range(n_private):
+                    raw, k = gen_ctx(rng, cc, run.tier)
+                    check_ctx(run, cc, raw, k, "random", PacketError)
+                for _ in range(n_fresh):
+                    ctx_fresh(run, rng, cc, PacketError)
+                if run.counters["violations"] > 40:
+                    return
+            if sampled < 2 and gkey[2] == "sub_first" and gkey[1] and shared:
+                raw, k = shared[0]
+                run.sample({"declaration": members[0].src, "raw": raw, "start_offset": k,
+                            "model_copy_reading": list(ctx_model(members[0], raw, k, "copy")[:3]),
+                            "model_in_place_reading": list(ctx_model(members[0], raw, k, "start")[:3])}, cap=8)
+                sampled += 1
+    finally:
+        forget(modules)
+        common.drop_scratch(scratch)
+
+
 # ---- driver -------------------------------------------------------------------------------------
 def run(run):
     from .. import common
@@ -1463,6 +1995,13 @@ def run(run):
         run_wrapped(run, PacketError, n_shared=8, n_private=4, n_fresh=2)
     else:
         run_wrapped(run, PacketError, n_shared=14, n_private=8, n_fresh=3)
+    if run.counters["violations"] > 40:
+        return
+    # regex delimiters with look-behinds, word boundaries, anchors, look-aheads; unpack(raw, offset > 0)
+    if run.tier == "quick":
+        run_ctx(run, PacketError, n_shared=14, n_private=6, n_fresh=2)
+    else:
+        run_ctx(run, PacketError, n_shared=24, n_private=12, n_fresh=3)
 
 
 def _replay_wrapped(run, w, PacketError):
@@ -1496,12 +2035,37 @@ def _replay_wrapped(run, w, PacketError):
         common.drop_scratch(scratch)
 
 
+def _replay_ctx(run, w, PacketError):
+    from .. import common
+    spec = w["spec"]
+    cc = CCls("KReplay", spec["shape"], CTX_MODE_BY_ID[spec["mode"]], spec["incl"], spec["W"], spec["opt"])
+    scratch = common.scratch_dir("bvf_c06r_")
+    mods = []
+    try:
+        mods = define_ctx([(None, [cc])], scratch)
+        raw = common.from_json(w.get("raw"))
+        if w.get("op") == "pack" and raw is None:
+            values = common.from_json(w["values"])
+            kw = {f: (cc.subcls(**x) if isinstance(x, dict) else x) for f, x in values.items()}
+            check_ctx_pack(run, cc, cc.cls(**kw), common.from_json(w["expected"]), values, "replay")
+        else:
+            check_ctx(run, cc, raw, w.get("start_offset", 0), "replay", PacketError)
+    finally:
+        forget(mods)
+        common.drop_scratch(scratch)
+
+
 def replay(run, rec):
     """Re-define the recorded class and re-execute the recorded case."""
     from .. import common
     from bisturi.packet import PacketError
     w = rec["witness"]
     spec = w["spec"]
+    if spec.get("ctx"):
+        _replay_ctx(run, w, PacketError)
+        if not run.violations:
+            print("replay: the recorded case did not produce a violation on this tree")
+        return
     if "shape" in spec:
         _replay_wrapped(run, w, PacketError)
         if not run.violations:
